@@ -29,7 +29,7 @@ Fixpoint apply_pick (dest : gval) (d' : datum) (l : list codec) (i : nat) {struc
   | _ :: l', S j => apply_pick dest d' l' j
   end.
 Definition conv_kv (vc : codec) (vz : gval) (kd : bytes * datum) : option (bytes * gval) :=
-  option_map (pair (fst kd)) (if new_nil vc then None else apply_datum vc vz (snd kd)).
+  option_map (pair (fst kd)) (apply_datum vc vz (snd kd)).
 
 Lemma apply_record_eq fs ds vs :
   apply_datum (CRecord fs) (VStruct vs) (DRecord ds) = option_map VStruct (apply_fields fs ds vs).
@@ -59,11 +59,11 @@ Lemma apply_map_go vc vz kvs acc :
   (fix go (kvs : list (bytes * datum)) (acc : list (bytes * gval)) {struct kvs} : option (list (bytes * gval)) :=
      match kvs with
      | [] => Some acc
-     | (k, d') :: r => match (if new_nil vc then None else apply_datum vc vz d') with Some v => go r (acc ++ [(k, v)]) | None => None end
+     | (k, d') :: r => match apply_datum vc vz d' with Some v => go r (acc ++ [(k, v)]) | None => None end
      end) kvs acc = option_map (app acc) (mapo (conv_kv vc vz) kvs).
 Proof.
   revert acc. induction kvs as [|[k d'] kvs IH]; intros acc; cbn [mapo option_map]; [rewrite app_nil_r; reflexivity|].
-  unfold conv_kv at 1. cbn [fst snd]. destruct (if new_nil vc then None else apply_datum vc vz d') as [v|]; cbn [option_map]; [|reflexivity]. rewrite IH.
+  unfold conv_kv at 1. cbn [fst snd]. destruct (apply_datum vc vz d') as [v|]; cbn [option_map]; [|reflexivity]. rewrite IH.
   destruct (mapo (conv_kv vc vz) kvs); cbn [option_map]; [rewrite <- app_assoc; reflexivity|reflexivity].
 Qed.
 
@@ -180,18 +180,18 @@ Proof.
     rewrite apply_map_go in Ha.
     destruct (mapo (conv_kv c z) a) as [ys|] eqn:Em; [|discriminate]. injection Ha as <-.
     set (f1 := fun b1 => obind (sd_len_prefixed b1) (fun k r => obind (sd fuel s r) (fun d r' => Done (k, d) r'))).
-    set (f2 := fun b1 => obind (string_read b1) (fun k r => if new_nil c then Panic else obind (c_read fuel c z r) (fun v r' => Done (k, v) r'))).
+    set (f2 := fun b1 => obind (string_read b1) (fun k r => obind (c_read fuel c z r) (fun v r' => Done (k, v) r'))).
     assert (Heq1 : forall acc b0, app_item f1 acc b0 = sd_mitem fuel s acc b0).
     { intros acc b0. unfold sd_mitem, app_item, f1. destruct (sd_len_prefixed b0); cbn [obind]; try reflexivity.
       destruct (sd fuel s rest); reflexivity. }
     assert (Heq2 : forall acc b0, read_mitem fuel c z acc b0 = app_item f2 acc b0).
     { intros acc b0. unfold read_mitem, app_item, f2. destruct (string_read b0); cbn [obind]; try reflexivity.
-      destruct (new_nil c); [reflexivity|]. destruct (c_read fuel c z rest); reflexivity. }
+      destruct (c_read fuel c z rest); reflexivity. }
     assert (Hb : blocks false (read_mitem fuel c z) fuel kvs0 bs = Done (kvs0 ++ ys) r0).
     { rewrite (blocks_ext false _ _ Heq2).
       apply (blocks_simlist f1 f2 (conv_kv c z)) with (xsf := a); [| |exact Em].
       - intros b0 [k d0] r1 [k' y] H1 H2. unfold f1 in H1. inv_obind H1. inv_obind H1. injection H1 as Hk Hd Hr. subst k d0 r1.
-        unfold conv_kv in H2. cbn [fst snd] in H2. unfold f2. destruct (new_nil c); [discriminate|].
+        unfold conv_kv in H2. cbn [fst snd] in H2. unfold f2.
         destruct (apply_datum c z a1) as [v0|] eqn:Eav; [|discriminate].
         injection H2 as Hk' Hy. subst k' y. rewrite (len_prefixed_string _ _ _ Ho0). cbn [obind].
         rewrite (IHc _ _ _ _ _ _ W Ho1 Eav). reflexivity.
